@@ -402,3 +402,40 @@ pub fn run_tlv(x: &[u8], idx: u64, one_in: u64, mut f: impl FnMut(&[u8])) {
         crate::engine::placed(x, idx / 5, |y| f(y));
     }
 }
+
+
+// ---------------------------------------------------------------------------------------------
+// two-pass drivers, for judges that make several calls into the crate per element: hidden state
+// that one call leaves behind and the next call of the same judge clears again (a "pending
+// header" slot that a success resets, say) never shows between the elements of a history. The
+// first pass therefore visits every element with `light = true`, where the judge makes exactly
+// one call (its primary entry point) and judges that; the second pass is the ordinary one.
+
+fn two_pass(h: &[Vec<u8>], salt: u64, mut f: impl FnMut(&[u8], bool)) {
+    crate::engine::placed_seq(h, salt, |y| f(y, true));
+    crate::engine::placed_seq(h, salt, |y| f(y, false));
+}
+
+pub fn run_v1_two_pass(x: &[u8], idx: u64, one_in: u64, mut f: impl FnMut(&[u8], bool)) {
+    if let Some((others, _)) = crate::collide::v1_partners(x) {
+        for o in others {
+            two_pass(&[o.to_vec(), x.to_vec()], idx, &mut f);
+        }
+    } else if !crate::engine::small() && crate::engine::with_history(idx, one_in) {
+        two_pass(&v1_history(x, idx), idx, f);
+    } else {
+        crate::engine::placed(x, idx, |y| f(y, false));
+    }
+}
+
+pub fn run_v2_two_pass(x: &[u8], idx: u64, one_in: u64, mut f: impl FnMut(&[u8], bool)) {
+    if let Some((others, _)) = crate::collide::v2_partners(x) {
+        for o in others {
+            two_pass(&[o.to_vec(), x.to_vec()], idx / 3, &mut f);
+        }
+    } else if !crate::engine::small() && x.len() <= 4096 && crate::engine::with_history(idx, one_in) {
+        two_pass(&v2_history(x, idx), idx / 3, f);
+    } else {
+        crate::engine::placed(x, idx / 3, |y| f(y, false));
+    }
+}
